@@ -23,7 +23,7 @@ def plan(ctx):
         steps += native(ctx, p, "C14", FULL, "debug", 0, 1, faults="single", gen="directed")
         steps += native(ctx, p, "C14", "auto-collect,weak-ptrs,cleaners", "debug", 1000, 1, faults="single")
         steps += native(ctx, p, "C14", "finalization,weak-ptrs", "debug", 1000, 1, faults="single")
-        steps += miri(ctx, p, "C14", FULL, 24, 12, faults="single", extra=["--max-fault-points", "6"])
+        steps += miri(ctx, p, "C14", FULL, 24, 12, faults="single", extra=["--max-fault-points", "3", "--max-ops", "16"])
     else:
         for fs in weak_sets:
             main = fs == FULL
